@@ -58,6 +58,14 @@ def tweak(rng, row, w, case):
             st['mpuir'] = 12 << 8
             st['sctlr'] = (st['sctlr'] | 1) & ~(1 << 13)
             st['vbar'] = 0
+        dev_ = [m_ for m_ in case['mems'] if m_[0] == gen.DATA[0]]
+        if nm.startswith('RFE') and dev_ and 'n' in f and f['n'] <= 14 and rng.random() < 0.15:
+            # the two words of the frame lie in two devices (the data device ends between them): they are two word accesses
+            e_ = dev_[0][0] + dev_[0][1]
+            inc, before = f.get('U', 1), f.get('P', 0)
+            addr = (e_ - 4) & ~3
+            st[gen.bank_key(f['n'], mode)] = (addr - (4 if before else 0)) if inc else (addr + 8 - (0 if before else 4))
+            case['poke'].append([addr, ((0x8000 + 4 * rng.randrange(0, 0x30)).to_bytes(4, 'little') + gen.gen_cpsr(rng, cfg if cfg else {}, 0, mode=rng.choice(('usr', 'svc', 'irq'))).to_bytes(4, 'little')).hex()])
         for r14 in ('R.LRsvc', 'R.LRirq', 'R.LRfiq', 'R.LRabt', 'R.LRund', 'R.LRmon', 'elr_hyp'):
             if rng.random() < 0.7:
                 st[r14] = (0x8000 + 4 * rng.randrange(0, 0x30)) | rng.choice((0, 0, 0, 1, 2, 3))
